@@ -96,6 +96,37 @@ fn gen(case: &Value) -> Value {
     json!({"id": case["id"], "plain": plain, "zod": zod, "heck": heck, "abs": abs})
 }
 
+/// Subcommand `route`: the other ways a configuration reaches the generator from Rust.
+/// case: {"id", "cwd": dir, "kind": "build" | "lib-tauri", "conf": path}
+///   build     - chdir into cwd and call BuildSystem::generate_at_build_time(), as a build.rs would
+///               (project detection, then tauri.conf.json / typegen.json through load_configuration)
+///   lib-tauri - GenerateConfig::from_tauri_config(conf) followed by generate_from_config
+/// The tool prints cargo: lines on stdout; the python side picks the last JSON line.
+fn route(case: &Value) -> Value {
+    let back = std::env::current_dir().unwrap();
+    std::env::set_current_dir(case["cwd"].as_str().unwrap()).unwrap();
+    let kind = case["kind"].as_str().unwrap().to_string();
+    let conf = case["conf"].as_str().unwrap_or("").to_string();
+    let r = catch_unwind(AssertUnwindSafe(|| -> Result<(), String> {
+        match kind.as_str() {
+            "build" => tauri_typegen::BuildSystem::generate_at_build_time().map_err(|e| e.to_string()),
+            _ => {
+                let config = GenerateConfig::from_tauri_config(&conf)
+                    .map_err(|e| format!("config: {e}"))?
+                    .ok_or_else(|| "no typegen section".to_string())?;
+                generate_from_config(&config).map(|_| ()).map_err(|e| e.to_string())
+            }
+        }
+    }));
+    std::env::set_current_dir(back).unwrap();
+    println!();
+    match r {
+        Err(e) => json!({"id": case["id"], "panic": panic_msg(e)}),
+        Ok(Err(e)) => json!({"id": case["id"], "error": e}),
+        Ok(Ok(())) => json!({"id": case["id"], "ok": true}),
+    }
+}
+
 fn main() {
-    tt_harness::dispatch(&[("gen", gen)]);
+    tt_harness::dispatch(&[("gen", gen), ("route", route)]);
 }
